@@ -327,6 +327,7 @@ class Machine(object):
         self.cur_call_ty = None
         self.constenv = [{}]
         self.tyenv = [{}]        # generic type parameter name -> concrete type (per frame)
+        self.from_source = set()  # def paths whose built-in model is bypassed: the crate's own body is evaluated
         self.fork_logic = False  # symbolic && / || : fork instead of building a term
         self.vec_seed = None     # function(type string of a new Vec) -> initial items | None
 
@@ -552,7 +553,7 @@ class Machine(object):
             if p and self.uninterpreted(p, callee):
                 return Term("call", p, *args)
         for p in (r, d):
-            if p and p in builtins.TABLE:
+            if p and p in builtins.TABLE and p not in self.from_source:
                 return builtins.TABLE[p](self, args, callee)
         tr = callee.get("trait")
         key = (tr, callee.get("name")) if tr else None
